@@ -162,14 +162,15 @@ def maintenance(ctx, mf, N):
 
 
 # ------------------------------------------------------------------------------------------------ node identities: re-created nodes
-def recreated(ctx, mf, N):
-    """perform_maintenance with node objects tracked: every tablet has one replica (host id, object identity). Environment as ClusterState builds it:
-    `recreated_nodes[h]` is the SAME object as `all_current_nodes[h]`; a replica resolved before this refresh refers to the OLD object of a re-created node."""
+def recreated(ctx, mf, N, R=2):
+    """perform_maintenance with node objects tracked: every tablet has R replicas (host id, object identity), all in one datacenter, so the per-DC list mirrors
+    the full list. Environment as ClusterState builds it: `recreated_nodes[h]` is the SAME object as `all_current_nodes[h]`; a replica resolved before this
+    refresh refers to the OLD object of a re-created node."""
     fn = mf.find(r"::perform_maintenance\(_1: &mut TableTablets")
     H = z3.BitVecSort(64)
     cur_p = z3.Array("known_now", H, z3.BoolSort()); cur_o = z3.Array("object_now", H, H)
     rec_p = z3.Array("recreated", H, z3.BoolSort())
-    hid = [z3.BitVec(f"host{i}", 64) for i in range(N)]; oid = [z3.BitVec(f"object{i}", 64) for i in range(N)]
+    hid = [[z3.BitVec(f"host{i}_{r}", 64) for r in range(R)] for i in range(N)]; oid = [[z3.BitVec(f"object{i}_{r}", 64) for r in range(R)] for i in range(N)]
     fd = [z3.Bool(f"unresolved{i}") for i in range(N)]
     f = [z3.BitVec(f"f{i}", 64) for i in range(N)]; l = [z3.BitVec(f"l{i}", 64) for i in range(N)]
     fl0 = z3.Bool("flag0"); removed_empty = z3.Bool("no_node_removed"); clean = [z3.Bool(f"no_replica_on_removed_node{i}") for i in range(N)]
@@ -178,23 +179,27 @@ def recreated(ctx, mf, N):
     for i in range(N):
         pre += [f[i] != MIN, f[i] <= l[i]]
         if i > 0: pre.append(l[i - 1] < f[i])
-        # a replica that is already resolved and whose node was re-created still refers to the old object
-        pre.append(z3.Implies(z3.And(z3.Not(fd[i]), z3.Select(rec_p, hid[i])), oid[i] != z3.Select(cur_o, hid[i])))
+        if R > 1: pre.append(z3.Distinct(*hid[i]))
+        for r in range(R):
+            # a replica that is already resolved and whose node was re-created still refers to the old object
+            pre.append(z3.Implies(z3.And(z3.Not(fd[i]), z3.Select(rec_p, hid[i][r])), oid[i][r] != z3.Select(cur_o, hid[i][r])))
     h = z3.BitVec("h_any", 64)
     pre.append(z3.ForAll([h], z3.Implies(z3.Select(rec_p, h), z3.Select(cur_p, h))))
     def arc(hv, ov): return Tup([Tup([Int(hv, 64, False)], "Node"), Int(ov, 64, False)], "ArcNode")
+    def reps(i, objs):
+        lst = lambda: Seq([Tup([arc(hid[i][r], objs[r]), Int(bv(i, 32), 32, False)]) for r in range(R)])
+        return Tup([lst(), Seq([lst()])], "TabletReplicas")            # (all, per_dc = one datacenter holding the same replicas)
     def tab(i):
         d = z3.If(fd[i], bv(1, 64), bv(0, 64))
-        reps = Tup([Seq([Tup([arc(hid[i], oid[i]), Int(bv(i, 32), 32, False)])]), Opaque("per_dc")], "TabletReplicas")
-        return Tup([Tup([Int(f[i], 64, True)], "Token"), Tup([Int(l[i], 64, True)], "Token"), reps,
+        return Tup([Tup([Int(f[i], 64, True)], "Token"), Tup([Int(l[i], 64, True)], "Token"), reps(i, oid[i]),
                     Enum(Int(d, 64, True), {1: Tup([Opaque(f"raw:{i}")])}, OPTION, "Option")], "Tablet")
     m = dict(c15.models())
     m[r"^Vec::<Tablet>::retain(_mut)?::<"] = m_retain
     def from_raw(it, p, callee, args):
         i = int(_strip(args[0]).name.split(":")[1])
-        ok = z3.Select(cur_p, hid[i])
-        reps = Tup([Seq([Tup([arc(hid[i], z3.Select(cur_o, hid[i])), Int(bv(i, 32), 32, False)])]), Opaque("per_dc")], "TabletReplicas")
-        return Enum(Int(z3.If(ok, bv(0, 64), bv(1, 64)), 64, True), {0: Tup([reps]), 1: Tup([Tup([Tup([Seq([]), Opaque("per_dc")], "TabletReplicas"), Opaque("failed-ids")])])}, RESULT, "Result")
+        ok = z3.And([z3.Select(cur_p, hid[i][r]) for r in range(R)])
+        good = reps(i, [z3.Select(cur_o, hid[i][r]) for r in range(R)])
+        return Enum(Int(z3.If(ok, bv(0, 64), bv(1, 64)), 64, True), {0: Tup([good]), 1: Tup([Tup([Tup([Seq([]), Seq([])], "TabletReplicas"), Opaque("failed-ids")])])}, RESULT, "Result")
     m[r"^TabletReplicas::from_raw_replicas::<"] = from_raw
     def as_ref(it, p, callee, args):
         o = sm.deref(args[0])
@@ -227,11 +232,12 @@ def recreated(ctx, mf, N):
     m[r"^std::collections::HashMap::<uuid::Uuid, Arc<Node>>::get::<uuid::Uuid>$"] = rec_get
     m[r"^Arc::<Node>::ptr_eq$"] = lambda it, p, c, a: Bool(_strip(a[0]).f[1].t == _strip(a[1]).f[1].t)
     m[r"^<Arc<Node> as Clone>::clone$"] = lambda it, p, c, a: mir.copy_value(_strip(a[0]))
-    m[r"^std::collections::HashMap::<String, Vec<\(Arc<Node>, u32\)>>::values_mut$"] = lambda it, p, c, a: im.eager([])
+    m[r"^std::collections::HashMap::<String, Vec<\(Arc<Node>, u32\)>>::values_mut$"] = \
+        lambda it, p, c, a: im.eager([Ref(a[0].cell, tuple(a[0].path) + (("index_const", k),)) for k in range(len(sm.deref(a[0]).items))])
     m[r"^<std::collections::hash_map::ValuesMut<.*> as (IntoIterator>::into_iter|Iterator>::next)$"] = lambda it, p, c, a: (a[0] if c.endswith("into_iter") else im.m_next(it, p, c, a))
     m["__consts__"] = {"tracing::Level::WARN": Opaque("level"), "tracing::Level::DEBUG": Opaque("level"), "tracing::level_filters::STATIC_MAX_LEVEL": Opaque("lf")}
     table = Tup([Opaque("spec"), Seq([tab(i) for i in range(N)]), Bool(fl0)], "TableTablets")
-    it = mir.Interp(mf, mir.BVBackend(), m, inline=INLINE + [r"(^|::)Tablet::update_stale_nodes$"], max_steps=40000)
+    it = mir.Interp(mf, mir.BVBackend(), m, inline=INLINE + [r"(^|::)Tablet::update_stale_nodes$"], max_steps=60000)
     paths = it.run(fn, [Ref(Cell(table)), Opaque("removed_nodes"), Opaque("all_current_nodes"), Opaque("recreated_nodes")], pre)
     goals, cover = [], []
     for p in paths:
@@ -242,39 +248,52 @@ def recreated(ctx, mf, N):
         tabp = sm.deref(p.locals[1].v)
         conj = []
         for t in tabp.f[1].items:
-            a = t.f[2].f[0].items[0].f[0]
-            # every remaining replica refers to the current object of its node when that node was re-created
-            conj.append(z3.Implies(z3.Select(rec_p, a.f[0].f[0].t), a.f[1].t == z3.Select(cur_o, a.f[0].f[0].t)))
+            allr, dcr = t.f[2].f[0].items, t.f[2].f[1].items[0].items
+            conj.append(z3.BoolVal(len(allr) == len(dcr)))
+            for k, rep in enumerate(allr):
+                a = rep.f[0]
+                # every remaining replica refers to the current object of its node when that node was re-created ...
+                conj.append(z3.Implies(z3.Select(rec_p, a.f[0].f[0].t), a.f[1].t == z3.Select(cur_o, a.f[0].f[0].t)))
+                # ... and the per-datacenter list is the restriction of the full list: same hosts, same objects
+                if k < len(dcr):
+                    b = dcr[k].f[0]
+                    conj.append(z3.And(b.f[0].f[0].t == a.f[0].f[0].t, b.f[1].t == a.f[1].t))
         goals.append(z3.Implies(pc, z3.And(conj) if conj else z3.BoolVal(True)))
     goals.append(z3.Or(cover) if cover else z3.BoolVal(False))
     ctx.prove(f"c15_maintenance_n{N}_with_recreated_nodes_never_panics_and_swaps_objects", pre, z3.And(goals),
-              inputs=hid + oid + fd + f + l + clean + [fl0, removed_empty, anyrec],
+              inputs=[x for row in hid for x in row] + [x for row in oid for x in row] + fd + f + l + clean + [fl0, removed_empty, anyrec],
               functions=f"TableTablets::perform_maintenance, Tablet::{{re_resolve_replicas, update_stale_nodes}} [{FILE}]",
-              bounds=f"arbitrary table of N={N} tablets with one replica each (host id and node object symbolic), resolved or not; the refresh's maps symbolic (which hosts are known now, their current "
-                     "objects, which were re-created) under the relation ClusterState establishes (a re-created host is known and recreated_nodes holds the same object as all_current_nodes; an "
-                     "already resolved replica of a re-created host still refers to the old object): maintenance does not panic, and afterwards every remaining replica of a re-created host refers "
-                     "to its current object",
-              backend="BV+arrays", assumes=LIB + "; HashMap<Uuid, Arc<Node>>::get / Arc::ptr_eq / Arc::clone over (host id, object id) pairs; per-DC replica maps empty", witness=True,
-              outside="tablets with several replicas, per-DC maps", replay=lambda mm, N=N: replay_recreated(mm, N))
+              bounds=f"arbitrary table of N={N} tablets with {R} replicas each in one datacenter (host ids and node objects symbolic), resolved or not; the refresh's maps symbolic (which hosts are known "
+                     "now, their current objects, which were re-created) under the relation ClusterState establishes (a re-created host is known and recreated_nodes holds the same object as "
+                     "all_current_nodes; an already resolved replica of a re-created host still refers to the old object): maintenance does not panic; afterwards every remaining replica of a "
+                     "re-created host refers to its current object, and the per-datacenter replica list equals the full list entry by entry (same hosts, same objects)",
+              backend="BV+arrays", assumes=LIB + "; HashMap<Uuid, Arc<Node>>::get / Arc::ptr_eq / Arc::clone over (host id, object id) pairs; per-DC map = one datacenter", witness=True,
+              outside="replicas spread over several datacenters, more replicas per tablet", replay=lambda mm, N=N: replay_recreated(mm, N))
 
 
 def replay_recreated(m, N):
-    """native: real tablets, and maps built the way ClusterState builds them (recreated_nodes shares the Arc of all_current_nodes)"""
+    """native: real two-replica tablets, and maps built the way ClusterState builds them (recreated_nodes shares the Arc of all_current_nodes). The solver's array
+    values (which hosts are known / re-created) are not read back; the native run tries the four known/re-created placements over the two replicas with the
+    model's ranges and resolved flags, and reports what the real code does."""
     from . import native
     def s64(v):
         v = (v or 0) & ((1 << 64) - 1)
         return v - (1 << 64) if v >= (1 << 63) else v
     nat = native.Native("drv")
-    rows = []
-    any_removed = not m.get("no_node_removed")
+    rows, runs, bad = [], [], False
     for i in range(N):
-        unresolved = bool(m.get(f"unresolved{i}"))
-        # the solver's arrays are not reported; the decisive situation is an unresolved tablet whose node is known now AND was re-created
-        rows.append(f"{s64(m.get(f'f{i}'))} {s64(m.get(f'l{i}'))} {int(unresolved)} 1 {int(not m.get(f'no_replica_on_removed_node{i}', True))} 1")
-    got = nat.ask(f"tmaint2 {N} " + " ".join(rows) + f" {int(any_removed)}")
+        rows.append(f"{s64(m.get(f'f{i}'))} {s64(m.get(f'l{i}'))} {int(bool(m.get(f'unresolved{i}')))}")
+    variants = [[r.split() for r in rows]]
+    variants.append([[r.split()[0], r.split()[1], "0"] for r in rows])
+    variants.append([[r.split()[0], r.split()[1], "1"] for r in rows])
+    for var in variants:
+        for rm in (0, 1, 2, 3):
+            got = nat.ask(f"tmaint3 {N} " + " ".join(" ".join(r) for r in var) + f" 3 {rm}")
+            runs.append({"tablets": var, "recreated_mask": rm, "native": got})
+            if got.startswith("PANIC") or "=false" in got:
+                bad = True
     nat.close()
-    return native.record("C15", f"maintenance_recreated_n{N}", {"native": got, "expected": "no PANIC; every replica of a re-created node swapped to the new object", "scenario": rows},
-                         got.startswith("PANIC") or "stale" in got)
+    return native.record("C15", f"maintenance_recreated_n{N}", {"expected": "no PANIC; per_dc_mirrors_all=true recreated_swapped=true", "runs": [r for r in runs if r["native"].startswith("PANIC") or "=false" in r["native"]][:6] or runs[:2]}, bad)
 
 
 def replay(m, N):
